@@ -90,7 +90,7 @@ def stress(R, exe, seed, seconds, rounds, record=300, tag=""):
     env = vlib.goenv()
     env.update(VERIF_SEED=str(seed), VERIF_N=str(rounds), VERIF_SECONDS=str(seconds), VERIF_RECORD=str(record), VERIF_OUT=trace,
                GORACE="halt_on_error=1 exitcode=66")
-    rc, out = vlib.sh([exe, "-test.run", "TestConc", "-test.count=1", "-test.timeout=%ds" % (seconds + 120)], env=env, timeout=seconds + 300)
+    rc, out = vlib.sh([exe, "-test.run", "TestConc", "-test.count=1", "-test.timeout=%ds" % (seconds + 900)], env=env, timeout=seconds + 1200)
     return rc, out, trace
 
 
@@ -126,6 +126,10 @@ def run(R):
         R.oracle_failure("abort:" + out[i:i + 60].split("\n")[0], "the Go runtime aborted the process during concurrent table operations",
                          dict(seed=R.seed, report=out[i:i + 4000]))
     harness_failed = rc not in (0, 66) and not nraces and "fatal error:" not in out
+    if harness_failed and ("test timed out" in out or rc == 124):
+        # a wall-clock limit is never a verdict: the machine was too slow for the stress phase
+        R.notes.append("harness/conc did not finish within its time limit (slow machine); the rounds completed before that are evaluated")
+        harness_failed = False
     text = open(trace, errors="replace").read() if os.path.exists(trace) else ""
     if os.path.exists(trace) and not os.environ.get("VERIF_KEEP"):
         os.remove(trace)
@@ -148,6 +152,8 @@ def run(R):
                 fails.append(l)
         elif l.startswith("ANOMALY"):
             anomalies.append(l)
+        elif l.startswith("NOTE "):
+            R.notes.append("harness/conc: " + l[5:300])
         elif l.startswith("BADLINE"):
             R.proof_problems.append("conc runner could not parse: " + l[:200])
     if "DONE" not in rout:
